@@ -201,7 +201,11 @@ class Explorer:
         q = qt.replace('const ', '').strip()
         if loc == ('S', 'hold_exit_status'):
             return True       # joined, not a partition component (stale values outside a hold are dead)
-        return q in ('size_t', 'unsigned long')
+        if q in ('bool', '_Bool', 'char') or self.model.prog.enum_of(q) is not None:
+            return False
+        it_ = self.model.prog.int_type(q)
+        # counters and cursors: every unsigned integer field, whatever its width
+        return it_ is not None and not it_[1]
 
     # ------------------------------------------------------------ canonical form
     def canon(self, s):
